@@ -51,7 +51,10 @@ func main() {
 		"removals take effect in trace order, except that every subset of one clean-up batch is considered",
 		"schedules beyond the deviation bound are not explored",
 	}
-	names := []string{"safe3", "unsafe3cb", "safe2x1", "safe2x2", "merge4", "safe3keep2", "unsafe4merge", "unsafe3del-cf", "unsafe3upd-cf", "merge-late", "safe2x1+rev"}
+	names := []string{"safe3", "unsafe3cb", "safe2x1", "safe2x2", "merge4", "safe3keep2", "unsafe4merge", "unsafe3del-cf", "unsafe3upd-cf", "merge-late", "safe2x1+rev", "safe2x2+rr"}
+	if c.Thorough() {
+		names = append(names, "safe2x1+rr", "merge-late+rr", "unsafe3cb+rr", "unsafe4merge+rr")
+	}
 	if os.Getenv("VERIF_ONLY") != "" {
 		names = strings.Split(os.Getenv("VERIF_ONLY"), ",")
 	}
